@@ -212,6 +212,19 @@ func (c04) Case(c *core.Ctx) {
 		return out
 	}
 	compact = check("MapSeq.Xml", func() ([]byte, error) { return ms.Xml() })
+	if r.Intn(8) == 0 {
+		// the same document through the reader entry point, delivered by a reader that stalls (a long run of legal
+		// (0,nil) reads at one position): same token stream
+		c.Count("decoded-through-stalling-reader")
+		hr := &hostileReader{data: doc, zeroAt: map[int]int{r.Intn(len(doc)): 90 + r.Intn(200)}, budget: len(doc) + 400}
+		check("NewMapXmlSeqReader(stalling reader).Xml", func() ([]byte, error) {
+			m2, err := mxj.NewMapXmlSeqReader(hr)
+			if err != nil {
+				return nil, err
+			}
+			return m2.Xml()
+		})
+	}
 	xi := check("MapSeq.XmlIndent", func() ([]byte, error) { return ms.XmlIndent(prefix, indent) })
 	check("BeautifyXml", func() ([]byte, error) { return mxj.BeautifyXml(doc, prefix, indent) })
 	// NewMapFormattedXmlSeq documents that it strips whitespace between '>' and '<' textually; a document whose
